@@ -16,8 +16,10 @@ import (
 	"net/http/httptest"
 	"os"
 	"path/filepath"
+	"runtime"
 	"runtime/debug"
 	"strings"
+	"sync"
 	"testing"
 	"time"
 
@@ -210,4 +212,315 @@ func TestVerifC18Connect(t *testing.T) {
 	}
 	res.Stat("behaviours", int64(lines))
 	res.Stat("distinct_records", int64(len(seen)))
+}
+
+// ---------------------------------------------------------------------------------- upload histories
+// TestVerifC18Panel replays the histories TLC exported from spec/UserDBPanel.tla on the real panel over a
+// real localManager on a bolt file: admin POST / DELETE through the APIRouter, the owner connecting
+// (userPanel.GetUser), traffic on his valve, his last session ending (ActiveUser.CloseSession ->
+// TerminateActiveUser) and the periodic upload exactly as regularQueueUpload runs it (updateUsageQueue;
+// commitUpdate) - on the harness goroutine, under recover, because in the server that goroutine has none.
+// Decides: a panic; the store read back after a step != the model's (usage is deducted once, nothing else
+// changes). Logged only: which UIDs have a live record, the usage queue, GetUser's verdict.
+
+type c18PStep struct {
+	O   string               `json:"o"`
+	U   string               `json:"u"`
+	W   []c18Cell            `json:"w"`
+	A   int64                `json:"a"`
+	B   int64                `json:"b"`
+	V   string               `json:"v"`
+	N   int                  `json:"n"`
+	S   map[string][]c18Cell `json:"s"`
+	Act map[string]bool      `json:"act"`
+	Q   map[string][]int64   `json:"q"`
+}
+
+type c18History struct {
+	Steps []c18PStep `json:"steps"`
+}
+
+var c18PUIDs = map[string][]byte{
+	"u1": {0xfb, 0xef, 0xbe, 0xff, 0xff, 0xfe, 0x00, 0x10, 0x83, 0x10, 0x51, 0x87, 0x20, 0x92, 0x8b, 0x3f},
+	"u2": {0x03, 0xff, 0xfe, 0xfb, 0xf0, 0x0f, 0x55, 0xaa, 0x00, 0x00, 0x00, 0x00, 0x00, 0x00, 0x00, 0x01},
+}
+
+func c18PSafe(f func()) (p string) {
+	defer func() {
+		if r := recover(); r != nil {
+			var frames []string
+			for _, l := range strings.Split(string(debug.Stack()), "\n") {
+				if strings.HasPrefix(l, "github.com/cbeuw/Cloak/") && !strings.Contains(l, "c18") {
+					if i := strings.LastIndex(l, "("); i > 0 {
+						l = l[:i]
+					}
+					frames = append(frames, l[strings.LastIndex(l, "/")+1:])
+				}
+			}
+			if len(frames) > 4 {
+				frames = frames[:4]
+			}
+			p = fmt.Sprintf("%v | %s", r, strings.Join(frames, " < "))
+		}
+	}()
+	f()
+	return ""
+}
+
+// c18RunHistory returns the violation key ("" if none), a description and the step table.
+func c18RunHistory(h *c18History, tmp string, res *kit.Result, verbose bool) (key, what string, table []string) {
+	dir, err := os.MkdirTemp(tmp, "c18hist")
+	if err != nil {
+		panic(err)
+	}
+	defer os.RemoveAll(dir)
+	mgr, err := usermanager.MakeLocalManager(filepath.Join(dir, "userinfo.db"), common.WorldOfTime(time.Unix(0, 0)))
+	if err != nil {
+		panic(err)
+	}
+	defer mgr.Close()
+	router := usermanager.APIRouterOf(mgr)
+	// the panel as MakeUserPanel builds it, minus the ticker goroutine: the replay runs the upload itself
+	panel := &userPanel{
+		Manager:          mgr,
+		activeUsers:      make(map[[16]byte]*ActiveUser),
+		usageUpdateQueue: make(map[[16]byte]*usagePair),
+		uploadInterval:   defaultUploadInterval,
+	}
+	logf := func(format string, a ...any) {
+		if verbose {
+			table = append(table, fmt.Sprintf(format, a...))
+		}
+	}
+	live := func(u string) *ActiveUser {
+		var arr [16]byte
+		copy(arr[:], c18PUIDs[u])
+		panel.activeUsersM.RLock()
+		defer panel.activeUsersM.RUnlock()
+		return panel.activeUsers[arr]
+	}
+	for si := range h.Steps {
+		st := &h.Steps[si]
+		uid := c18PUIDs[st.U]
+		var pan string
+		switch st.O {
+		case "post":
+			parts := []string{fmt.Sprintf(`"UID":%q`, base64.StdEncoding.EncodeToString(uid))}
+			for i, c := range st.W {
+				if len(c) == 1 {
+					parts = append(parts, fmt.Sprintf(`%q:%d`, c18Fields[i], c18Concrete(c[0], i)))
+				}
+			}
+			body := "{" + strings.Join(parts, ",") + "}"
+			rr := httptest.NewRecorder()
+			pan = c18PSafe(func() {
+				router.ServeHTTP(rr, httptest.NewRequest("POST", "http://srv/admin/users/"+base64.URLEncoding.EncodeToString(uid), strings.NewReader(body)))
+			})
+			logf("step %d POST %s %s -> %d", si, st.U, body, rr.Code)
+		case "delete":
+			rr := httptest.NewRecorder()
+			pan = c18PSafe(func() {
+				router.ServeHTTP(rr, httptest.NewRequest("DELETE", "http://srv/admin/users/"+base64.URLEncoding.EncodeToString(uid), nil))
+			})
+			logf("step %d DELETE %s -> %d", si, st.U, rr.Code)
+		case "connect":
+			var gerr error
+			pan = c18PSafe(func() { _, gerr = panel.GetUser(uid) })
+			verdict := "ok"
+			if gerr != nil {
+				verdict = gerr.Error()
+			}
+			logf("step %d GetUser(%s) -> %s (model %s)", si, st.U, verdict, st.V)
+			if (gerr == nil) != (st.V == "ok") && pan == "" {
+				res.Stat("panel_state_diff", 1)
+				res.Note("GetUser: model %s, code %v", st.V, gerr)
+			}
+		case "use":
+			user := live(st.U)
+			if user == nil {
+				res.Stat("panel_state_diff", 1)
+				res.Note("step %d: model has a live record for %s, the panel has none", si, st.U)
+				return "", "", table // the history cannot be followed any further
+			}
+			user.valve.AddRx(st.A)
+			user.valve.AddTx(st.B)
+			logf("step %d AddRx(%d) AddTx(%d) on %s", si, st.A, st.B, st.U)
+		case "disconnect":
+			user := live(st.U)
+			if user == nil {
+				res.Stat("panel_state_diff", 1)
+				return "", "", table
+			}
+			pan = c18PSafe(func() { user.CloseSession(1, "") })
+			logf("step %d CloseSession (last) of %s", si, st.U)
+		case "round":
+			var cerr error
+			pan = c18PSafe(func() {
+				panel.updateUsageQueue()
+				cerr = panel.commitUpdate()
+			})
+			logf("step %d updateUsageQueue; commitUpdate -> %v (model: %d TERMINATE answers without live record)", si, cerr, st.N)
+		default:
+			panic("unknown step " + st.O)
+		}
+		if pan != "" {
+			logf("  PANIC %s", pan)
+			name := map[string]string{"round": "commitUpdate", "connect": "GetUser", "disconnect": "CloseSession", "post": "WriteUserInfo", "delete": "DeleteUser"}[st.O]
+			if st.O == "round" && !strings.Contains(pan, "commitUpdate") {
+				name = "updateUsageQueue"
+			}
+			return "panic:" + name, fmt.Sprintf("step %d (%s %s): %s", si, st.O, st.U, pan), table
+		}
+		// the store after the step
+		for _, u := range []string{"u1", "u2"} {
+			var ui usermanager.UserInfo
+			var gerr error
+			if p := c18PSafe(func() { ui, gerr = mgr.GetUserInfo(c18PUIDs[u]) }); p != "" {
+				return "panic:GetUserInfo", fmt.Sprintf("step %d: %s", si, p), table
+			}
+			exp := st.S[u]
+			if (gerr == nil) != (len(exp) == 6) {
+				return "readback:panel-" + st.O, fmt.Sprintf("step %d after %s: user %s exists=%v, the history implies %v", si, st.O, u, gerr == nil, len(exp) == 6), table
+			}
+			if gerr != nil {
+				continue
+			}
+			got := []int64{0, 0, 0, 0, 0, 0}
+			if ui.SessionsCap != nil {
+				got[0] = int64(*ui.SessionsCap)
+			}
+			for i, p := range []usermanager.MaybeInt64{ui.UpRate, ui.DownRate, ui.UpCredit, ui.DownCredit, ui.ExpiryTime} {
+				if p != nil {
+					got[i+1] = *p
+				}
+			}
+			for i := range got {
+				want := int64(0)
+				if len(exp[i]) == 1 {
+					want = c18Concrete(exp[i][0], i)
+				}
+				if got[i] != want {
+					return "readback:panel-" + st.O, fmt.Sprintf("step %d after %s: %s.%s reads %d, the history implies %d", si, st.O, u, c18Fields[i], got[i], want), table
+				}
+			}
+			logf("  %s = %v", u, got)
+		}
+		// live records and usage queue (logged)
+		for _, u := range []string{"u1", "u2"} {
+			var arr [16]byte
+			copy(arr[:], c18PUIDs[u])
+			panel.usageUpdateQueueM.Lock()
+			qp := panel.usageUpdateQueue[arr]
+			var q []int64
+			if qp != nil {
+				q = []int64{*qp.up, *qp.down}
+			}
+			panel.usageUpdateQueueM.Unlock()
+			isLive := live(u) != nil
+			logf("  %s live=%v queue=%v (model live=%v queue=%v)", u, isLive, q, st.Act[u], st.Q[u])
+			if isLive != st.Act[u] || fmt.Sprint(q) != fmt.Sprint(st.Q[u]) {
+				res.Stat("panel_state_diff", 1)
+				res.Note("step %d after %s: %s live=%v queue=%v, model live=%v queue=%v", si, st.O, u, isLive, q, st.Act[u], st.Q[u])
+			}
+		}
+	}
+	return "", "", table
+}
+
+func TestVerifC18Panel(t *testing.T) {
+	log.SetOutput(io.Discard)
+	res := kit.NewResult()
+	defer func() { res.Save(true) }()
+	tmp := t.TempDir()
+	if rp := kit.Env("VERIF_REPLAY", ""); rp != "" {
+		var rf struct {
+			Replay struct {
+				History c18History `json:"history"`
+			} `json:"replay"`
+		}
+		raw, err := os.ReadFile(rp)
+		if err != nil {
+			t.Fatal(err)
+		}
+		if err := json.Unmarshal(raw, &rf); err != nil {
+			t.Fatal(err)
+		}
+		key, what, table := c18RunHistory(&rf.Replay.History, tmp, res, true)
+		for _, l := range table {
+			fmt.Println(l)
+		}
+		fmt.Printf("REPLAY-RESULT key=%q what=%q\n", key, what)
+		return
+	}
+	type job struct {
+		idx  int
+		line []byte
+	}
+	jobs := make(chan job, 256)
+	var wg sync.WaitGroup
+	var seenM sync.Mutex
+	seen := map[string]int{}
+	for w := 0; w < runtime.GOMAXPROCS(0); w++ {
+		wg.Add(1)
+		go func() {
+			defer wg.Done()
+			for j := range jobs {
+				var h c18History
+				if err := json.Unmarshal(j.line, &h); err != nil {
+					res.Stat("undecodable", 1)
+					res.Note("undecodable history %d: %v", j.idx, err)
+					continue
+				}
+				if j.idx%200 == 0 {
+					res.SetRunning(map[string]any{"history": h}, true)
+				}
+				key, what, _ := c18RunHistory(&h, tmp, res, false)
+				nilTerms, admin := 0, false
+				var sig strings.Builder
+				connected := false
+				for _, st := range h.Steps {
+					nilTerms += st.N
+					if st.O == "connect" && st.V == "ok" {
+						connected = true
+					}
+					if connected && (st.O == "post" || st.O == "delete") {
+						admin = true
+					}
+					fmt.Fprintf(&sig, "%s %s %v %d %d;", st.O, st.U, st.W, st.A, st.B)
+				}
+				// non-trivial: a TERMINATE answer met no live record, or the admin changed the record of a connected owner
+				res.Count(sig.String(), nilTerms > 0 || admin)
+				res.Stat("steps", int64(len(h.Steps)))
+				if nilTerms > 0 {
+					res.Stat("histories_with_terminate_for_no_live_record", 1)
+				}
+				if key != "" {
+					seenM.Lock()
+					seen[key]++
+					first := seen[key] <= 3
+					seenM.Unlock()
+					var table []string
+					if first {
+						_, _, table = c18RunHistory(&h, tmp, res, true)
+					}
+					res.Violate(key, what, map[string]any{"history": h, "table": table})
+				}
+				if j.idx%4999 == 1 {
+					res.Sample(map[string]any{"history": json.RawMessage(j.line)}, 2)
+				}
+			}
+		}()
+	}
+	idx := 0
+	err := kit.ReadLines(kit.Env("VERIF_IN", ""), func(line []byte) error {
+		idx++
+		jobs <- job{idx, append([]byte{}, line...)}
+		return nil
+	})
+	close(jobs)
+	wg.Wait()
+	if err != nil {
+		t.Fatal(err)
+	}
+	res.Stat("histories", int64(idx))
 }
